@@ -112,20 +112,20 @@ def pin_family(d, quick, LS):
     hl, = V.build(['h_life'])
     hists, meta = [], []
     for order in itertools.permutations('QRP'):
-        for dx2 in ((0, 4) if quick else (0, 2, 4, 8)):
+        for dx2 in ((0, 2, 4) if quick else (0, 2, 4, 8)):
             for dy3 in ((0,) if quick else (0, 4)):
                 for pq in ((0,) if quick else (0, 4)):
                     for buf in (0, 1):
                         hists.append(pin_scene(order, dx2, dy3, pq)); meta.append(buf)
     for order in ('CF', 'FC'):
         for dxf in (0, 2, -2):
-            for dyo in ((0,) if quick else (0, 4)):
+            for dyo in (0, 4):
                 hists.append(hug_scene(order, dxf, dyo)); meta.append(0)
     cpsof = {}
     for x1 in (10, 12):
-        for x2 in ((30,) if quick else (26, 30, 34)):
+        for x2 in ((26, 30) if quick else (26, 30, 34)):
             for gap in ((16, 24) if quick else (12, 16, 24)):
-                for dy in ((22,) if quick else (14, 22, -22)):
+                for dy in ((22, -22) if quick else (14, 22, -22)):
                     ops, cps = cp_scene(x1, x2, x2 + gap, dy)
                     cpsof[len(hists)] = cps
                     hists.append(ops); meta.append(1)          # with a shape buffer: the route turns short of B, and nudging centres that turn
@@ -159,9 +159,9 @@ def main(tier):
     scenes = []
     for W in (0, 2, 4, 8, 16, 24, 40):
         for k in (2, 3, 4):
-            for rep in range(3 if quick else 40):
+            for rep in range(12 if quick else 40):
                 scenes.append(corridor_scene(rnd, W, k, rnd.randint(0, 127)))
-    for _ in range(250 if quick else 6000):
+    for _ in range(1500 if quick else 6000):
         s = c03.random_scene(rnd, 1)
         if len(s['conns']) >= 2:
             # some connectors get a checkpoint in free space
@@ -177,7 +177,7 @@ def main(tier):
             scenes.append(s)
     # several checkpoints in the interior of one straight stretch that is followed by a segment nudging may centre (z-bend): the
     # stretch has to stay long enough for the last of them
-    for _ in range(80 if quick else 3000):
+    for _ in range(300 if quick else 3000):
         scenes.append(aligned_checkpoints_scene(rnd))
     out = RC.run_scenes(hr, d, 'nudge', scenes)
     LS = out['LS']
